@@ -109,6 +109,7 @@ func (c *CloneConfigurationLoader) cloneConfigToCloneRequest(cloneCfg *config.Py
 		MaxEditDistance:     cloneCfg.Analysis.MaxEditDistance,
 		IgnoreLiterals:      domain.BoolValue(cloneCfg.Analysis.IgnoreLiterals, false),
 		IgnoreIdentifiers:   domain.BoolValue(cloneCfg.Analysis.IgnoreIdentifiers, false),
+		SkipDocstrings:      domain.BoolValue(cloneCfg.Analysis.SkipDocstrings, true),
 		Type1Threshold:      cloneCfg.Thresholds.Type1Threshold,
 		Type2Threshold:      cloneCfg.Thresholds.Type2Threshold,
 		Type3Threshold:      cloneCfg.Thresholds.Type3Threshold,
